@@ -43,7 +43,8 @@ var illegalPool = []string{
 }
 
 // genLegalPrefix: a legal prefix whose first four octets are unique within the
-// configuration (slot), so configured prefixes never nest.
+// configuration (slot), so the prefixes drawn here never nest; overlapping
+// prefixes are added deliberately by nestPrefixes.
 func genLegalPrefix(rng *rand.Rand, bits, slot int) string {
 	var p [16]byte
 	for i := range p {
@@ -77,8 +78,84 @@ func genLegalPrefix(rng *rand.Rand, bits, slot int) string {
 	return s
 }
 
-func genCfg(rng *rand.Rand, ci int) cfgSpec {
-	var c cfgSpec
+// nestPrefixes makes the configured prefixes OVERLAP: one legal operator
+// prefix shorter than /96 (the broader one) gets a longer legal prefix inside
+// it, listed before or after it. Every address embedded under the narrower
+// prefix is then also inside the broader one (where it is, in general, not a
+// conformant embedding), and the base address of the narrower prefix may read
+// as a conformant embedding under both.
+func nestPrefixes(rng *rand.Rand, c *cfgSpec) {
+	var broadAt []int
+	legal := 0
+	for i, s := range c.Prefixes {
+		if p := parseRefPrefix(s); p.Legal {
+			legal++
+			if !p.WKP && p.Bits < 96 {
+				broadAt = append(broadAt, i)
+			}
+		}
+	}
+	if len(broadAt) == 0 {
+		return
+	}
+	bi := pick(rng, broadAt)
+	b := parseRefPrefix(c.Prefixes[bi])
+	var longer []int
+	for _, l := range legalLens {
+		if l > b.Bits {
+			longer = append(longer, l)
+		}
+	}
+	inner := func() string {
+		bits := pick(rng, longer)
+		a := b.Addr
+		for i := b.Bits; i < bits; i++ {
+			setBit(a[:], i, byte(rng.UintN(2)))
+		}
+		if rng.IntN(4) == 0 { // sparse: most of the added bits zero
+			for i := b.Bits + 8; i < bits; i++ {
+				setBit(a[:], i, 0)
+			}
+		}
+		a[8] = 0
+		return fmt.Sprintf("%s/%d", netip.AddrFrom16(a), bits)
+	}
+	n := 1
+	if rng.IntN(4) == 0 {
+		n = 2
+	}
+	for k := 0; k < n; k++ {
+		s := inner()
+		switch {
+		case legal >= 3 && len(c.Prefixes) > 1:
+			// keep the list short: take the place of another legal entry
+			at := -1
+			for i, x := range c.Prefixes {
+				if i != bi && parseRefPrefix(x).Legal {
+					at = i
+					if rng.IntN(2) == 0 {
+						break
+					}
+				}
+			}
+			if at < 0 {
+				return
+			}
+			c.Prefixes[at] = s
+		case rng.IntN(5) < 3: // after the broader prefix
+			at := bi + 1 + rng.IntN(len(c.Prefixes)-bi)
+			c.Prefixes = append(c.Prefixes[:at], append([]string{s}, c.Prefixes[at:]...)...)
+			legal++
+		default: // before it
+			at := rng.IntN(bi + 1)
+			c.Prefixes = append(c.Prefixes[:at], append([]string{s}, c.Prefixes[at:]...)...)
+			bi++
+			legal++
+		}
+	}
+}
+
+func genCfg(rng *rand.Rand, ci int) (c cfgSpec) {
 	mode := rng.IntN(20)
 	switch {
 	case mode == 0: // field omitted → WKP default
@@ -145,6 +222,10 @@ func genCfg(rng *rand.Rand, ci int) cfgSpec {
 			l = append(l, pick(rng, pool))
 		}
 		c.ExcludeAAAA = &l
+	}
+	// drawn last: every other field is the same with or without nesting
+	if rng.IntN(100) < 18 {
+		nestPrefixes(rng, &c)
 	}
 	return c
 }
@@ -539,13 +620,31 @@ func genPTRCase(rng *rand.Rand, e *env, cfg cfgSpec, idx int) *pipeCase {
 	c.DO = c.EDNS && rng.IntN(2) == 0
 
 	p := pick(rng, m.prefixes)
+	choices := []wchoice{{"valid", 50}, {"nonconformant-u", 7}, {"nonconformant-suffix", 7}, {"outside", 10},
+		{"nibbles-31", 4}, {"nibbles-33", 4}, {"wide-label", 4}, {"non-hex", 4}, {"short", 3}, {"in-addr", 3}, {"illegal-prefix", 4}}
+	if len(m.inner) > 0 {
+		// overlapping prefixes: lean towards the covered one
+		if rng.IntN(2) == 0 {
+			p = pick(rng, m.inner)
+		}
+		choices = append(choices, wchoice{"inner-base", 8})
+	}
 	v4 := genV4(rng, m)
 	addr := refEmbed(p.Addr, p.Bits, v4)
-	gen := weighted(rng, []wchoice{{"valid", 50}, {"nonconformant-u", 7}, {"nonconformant-suffix", 7}, {"outside", 10},
-		{"nibbles-31", 4}, {"nibbles-33", 4}, {"wide-label", 4}, {"non-hex", 4}, {"short", 3}, {"in-addr", 3}, {"illegal-prefix", 4}})
+	gen := weighted(rng, choices)
 	name := ""
 	switch gen {
 	case "valid":
+	case "inner-base":
+		// the base address of a covered prefix (0.0.0.0 under it; possibly a
+		// conformant embedding of another address under the covering prefix),
+		// or a few low bits above it
+		p = pick(rng, m.inner)
+		v4 = [4]byte{}
+		if rng.IntN(2) == 0 {
+			v4[3] = byte(rng.UintN(4))
+		}
+		addr = refEmbed(p.Addr, p.Bits, v4)
 	case "nonconformant-u":
 		if p.Bits == 96 {
 			gen = "valid"
